@@ -367,11 +367,11 @@ PROPS = {
     },
     "C16": {
         "level": "proof",
-        "claim": "Absolute wire format of the encoders against an independent RFC transcription (never the crate's decoder): frame / stream / setting / capsule / error-code registry values, ALPN h3, the QPACK static table == RFC 9204 Appendix A, frame and stream-header encoders and the WT preambles == RFC bytes for any payload length, datagram prefix, QPACK prefix integers == RFC 7541 5.1, Encoder::encode == 00 00 + exactly one RFC 9204 4.5 static/literal line per field, and the endpoint's local SETTINGS advertise WebTransport, H3 datagrams and extended CONNECT with a zero-capacity QPACK table. Datagrams: the driver's send path emits varint(session id / 4) || payload (unit datagram).",
+        "claim": "Absolute wire format of the encoders against an independent RFC transcription (never the crate's decoder): frame / stream / setting / capsule / error-code registry values, ALPN h3, the QPACK static table == RFC 9204 Appendix A, frame and stream-header encoders and the WT preambles == RFC bytes for any payload length, datagram prefix, QPACK prefix integers == RFC 7541 5.1, Encoder::encode == 00 00 + exactly one RFC 9204 4.5 static/literal line per field, and the endpoint's local SETTINGS advertise WebTransport, H3 datagrams and extended CONNECT with a zero-capacity QPACK table. Datagrams: the driver's send path emits varint(session id / 4) || payload (unit datagram). Control stream: the worker opens exactly one local control stream, with the Control header, and sends SETTINGS on it exactly once as the first thing (unit driver: Worker::open_and_send_settings; a refused control stream is H3_CLOSED_CRITICAL_STREAM).",
         "note": "The content of the local SETTINGS (WebTransport, H3 datagrams, extended CONNECT, zero-capacity QPACK table) and Encoder::encode's line-per-field grammar are Verus units. Not under contract (HashMap iteration / sort closure / driver): the order in which Settings::generate_frame emits the pairs, sorted_headers ordering (pseudo-headers first), 'exactly one control stream, SETTINGS first' (worker).",
         "kani": [FRAME_KIND_KANI[3], STREAM_KIND_KANI[3], SETTING_ID_KANI[3]] + MISC_KANI + [QPACK_MISC[1]] + QPACK_INT_ENC[:2]
                 + [STREAM_KANI_QUICK[5], STREAM_HEADER_KANI[1], FRAME_WRITE_KANI[0], DATAGRAM_KANI[2], CAPSULE_KANI[0]] + ASYNC_LEAF_KANI[3:5] + ASYNC_WRITE_KANI + [QPACK_LOOKUP_QUICK],
-        "verus": [V("qpack_encode"), V("frame_write", pair=("proto", "p_frame_write_roundtrip_8")), V("settings"), V("datagram")],
+        "verus": [V("qpack_encode"), V("frame_write", pair=("proto", "p_frame_write_roundtrip_8")), V("settings"), V("datagram"), V("driver")],
         "not_decided": ["LocalSettingsStream content", "pseudo-header ordering", "Encoder::encode as a whole", "worker emission order"],
     },
     "C17": {
